@@ -30,6 +30,8 @@ pub mod polling {
         pub uninterp spec fn may_add(&self, fd: int, ev: Event, mode: PollMode) -> bool;
         pub uninterp spec fn may_modify(&self, fd: int, ev: Event, mode: PollMode) -> bool;
         pub uninterp spec fn may_delete(&self, fd: int) -> bool;
+        /// caller-side guard of Poll::reregister (unit `generic`): the entry under this fd may be replaced
+        pub uninterp spec fn may_rereg(&self, fd: int) -> bool;
         pub uninterp spec fn w_added(&self, fd: int, ev: Event, mode: PollMode) -> bool;
         pub uninterp spec fn w_modified(&self, fd: int, ev: Event, mode: PollMode) -> bool;
         pub uninterp spec fn w_deleted(&self, fd: int) -> bool;
